@@ -236,10 +236,11 @@ impl HEntity {
     pub fn mtime_field(&self) -> String {
         match self.mtime {
             None => "-".to_string(),
-            Some(t) => {
-                let d = t.duration_since(UNIX_EPOCH).unwrap();
-                format!("{}.{}", d.as_secs(), d.subsec_nanos())
-            }
+            Some(t) => match t.duration_since(UNIX_EPOCH) {
+                Ok(d) => format!("{}.{}", d.as_secs(), d.subsec_nanos()),
+                // a modification time before the epoch (the model's `MTime.preEpoch`)
+                Err(_) => "neg".to_string(),
+            },
         }
     }
 }
